@@ -1167,7 +1167,7 @@ def check_C19(ctx, rep):
             continue
         if kind == 'hash-order' and caller is not None and caller.crate == 'maybenot' and caller.name == 'validate':
             m = path.split('::')[-1]
-            rep.ob('C19.R1', caller, 'sanctioned-hashset:' + m, m in ('new', 'contains', 'insert') and 'HashSet' in path, path)
+            rep.ob('C19.R1', caller, 'sanctioned-hashset:' + m, m in ('new', 'with_capacity', 'contains', 'insert', 'len', 'is_empty') and 'HashSet' in path, path)
             continue
         if kind == 'mutable-static' and (path.startswith('log::') or (caller is not None and caller.crate == 'log')):
             continue
@@ -1352,6 +1352,9 @@ def check_C19(ctx, rep):
     rep.assumptions += ['the five BUG: assertions and monotone time are NOT decided (they depend on queue contents)',
                         'exact sub-sequence equality under max_trace_length is NOT decided', 'integration delays are excluded by the property',
                         'Network pps = Some(0) is not a valid argument']
+    rep.rule('C19.R6', 'totality of the queue hand-over: SimQueue::pop_blocking removes the event peek_blocking handed out (the `.unwrap()` on its '
+             'result in sim_network_stack relies on it)')
+    check_pop_blocking(ctx, rep, 'C19.R6')
     return 'ambient-effect closure of the simulator, seed derivation, purity of the output filters, divisor casts, stop structure of the main loop and of pick_next'
 
 
